@@ -122,12 +122,15 @@ class WBSlave(Agent):
         self.mask = (1 << len(bus.dat_w)) - 1
         self.nsel = len(bus.sel)
         self.silenced = 0
+        self.returned = False
 
     def read_word(self, adr):
         return self.mem.get(adr, self.init(adr) & self.mask)
 
     def _silent(self, t):
         if self.back_at is not None and t >= self.back_at:
+            if not self.returned:
+                return True      # back, but waits for a cycle without request before serving again (see step)
             return False
         if self.silent_from is not None and self.n >= self.silent_from:
             return True
@@ -149,6 +152,11 @@ class WBSlave(Agent):
     def step(self, v, t, w):
         b = self.bus
         req = v[b.cyc] and v[b.stb]
+        if self.back_at is not None and t >= self.back_at and not self.returned and not req:
+            # a returning slave only serves requests that start after its return (a request that was already
+            # pending may be terminated by the timeout at any moment)
+            self.returned = True
+            self.state = "idle"
         if self.state == "resp":
             # ack/err was high during the cycle that ends now
             if req:
